@@ -9,6 +9,7 @@ open Petl.Gen
 
 def expectedC18 : List (String × String) := [
   ("file:comparison.py", "c46d05a1308c92ce"),
+  ("file:compat.py", "2a259e16acd200bc"),
   ("file:config.py", "142bde514c82c29d"),
   ("file:io/json.py", "5e1ef8b67f567a77"),
   ("file:transform/sorts.py", "137f7e8a70e043fe"),
